@@ -137,6 +137,27 @@ def pair_cfg(rnd, ga, gb, whole, multi, quick, target):
     return k
 
 
+def polar_cfg(rnd, quick):
+    """A = an L-shaped loop on a polar face whose notch holds the pole: it spans about 270 degrees of
+    longitude without containing the pole; B = two shells near the two ends of the L, so that the
+    longitude interval of B's bound runs through the notch (the wrap-around case of Polygon.Contains)"""
+    k = base_constants()
+    ga, gb = rnd.choice([(3, 6), (3, 5), (2, 5)])
+    na, nb = 2 ** ga, 2 ** gb
+    s = nb // na
+    m = rnd.randint(1, na // 2 - 1) if na > 2 else 1       # notch corner, below the face centre
+    k.update({"GF": gb, "GA": ga, "GB": gb, "XsA": {0, m, na}, "YsA": {0, m, na}, "KindsA": {0, 1}, "KindsB": {0},
+              "PitchA": {rnd.choice([0, 1])}, "PitchB": {rnd.choice([1, 2])}, "MaxLoopsA": 1, "MaxLoopsB": 2})
+    lo = sorted(rnd.sample(range(0, m * s + 1), 3))         # inside the arms' width
+    hi = sorted(rnd.sample(range(nb // 2 + 2, nb + 1), 3))  # beyond the centre
+    k.update({"XsB": set(hi), "YsB": set(lo), "HXsB": set(lo), "HYsB": set(hi)})
+    f = rnd.choice([2, 5])
+    k["FacePairs"] = {f * 6 + f}
+    k["ThinMod"] = 2 if quick else 1
+    k["ThinRem"] = rnd.randrange(k["ThinMod"])
+    return k
+
+
 def small_cfg(rnd, quick):
     """tiny fine level: every cell of the sphere is enumerated, so TLC proves on each generated
     pair that the probe universe is exact and that the corner sequences bound the cell sets;
@@ -199,6 +220,9 @@ def run(ctx):
 
     # 2. tiny level with full-universe proofs (all faces, two-face pairs)
     pairs(small_cfg(rnd, quick), "exhaustive-universe pairs")
+
+    # 2b. wrap-around longitudes on a polar face
+    pairs(polar_cfg(rnd, quick), "polar wrap-around polygon pairs")
 
     # 3. mixed-level loop pairs and polygon pairs
     levels = [(4, 7), (3, 6), (4, 6), (5, 7), (3, 5), (2, 5), (7, 4), (6, 3), (5, 3)]
